@@ -319,9 +319,9 @@ def run(ctx):
     check_header(ctx)
     check_subclasses(ctx)
     _block.check_block_encode(ctx, "C04.B2")
-    _block.check_block_decode(ctx, "C04.B2")
+    _block.check_block_decode(ctx, "C04.B2", with_checksum=False)
     check_framing(ctx)
     check_byte_queue(ctx)
     # wait predicate loop / append-notify (shared with C09.W1) and thread wake-up discipline
     check_bytequeue_wait(ctx, "C04.W1")
-    check_dispatcher(ctx, "C04.W1", wakeups=True, consumers=True)
+    check_dispatcher(ctx, "C04.W1", wakeups=True, consumers=True, reconnect=False)
